@@ -289,6 +289,10 @@ struct any_op final : rcv_iface {
   TapRec* tap;
   op_base* inner = nullptr;
   detail::token_bridge<Tok> tb;
+  // Results are handed upwards by reference to storage that belongs to THIS operation (as just()/just_error() do):
+  // a parent that destroys its child operation and only then reads the reference reads freed memory.
+  Val* vstore = nullptr;
+  std::exception_ptr* estore = nullptr;
 
   any_op(node_base* n, R&& rr) : r((R &&) rr), tap(tap_new(n->id)) {
     try {
@@ -312,6 +316,8 @@ struct any_op final : rcv_iface {
     }
     delete inner;
     tb.release();  // connected but never started (a sibling's connect threw)
+    if (vstore) { vstore->~Val(); usim_free(vstore); }
+    if (estore) { estore->~exception_ptr(); usim_free(estore); }
   }
   void start() noexcept {
     {
@@ -334,7 +340,9 @@ struct any_op final : rcv_iface {
     TapRec* t = tap;
     tap_signal(t, CH_VALUE, v.id);
     tb.release();
-    unifex::set_value(std::move(r), std::move(v));
+    Val* vs = ::new (usim_alloc(sizeof(Val))) Val(std::move(v));
+    vstore = vs;
+    unifex::set_value(std::move(r), std::move(*vs));
     tap_signal_exit(t);
   }
   void rv_error(std::exception_ptr e) noexcept override {
@@ -343,7 +351,9 @@ struct any_op final : rcv_iface {
     try { std::rethrow_exception(e); } catch (const TestError& te) { code = te.id; } catch (const injected_throw& it) { code = it.code; } catch (const std::bad_alloc&) { code = -8000; } catch (...) { code = -9999; }
     tap_signal(t, CH_ERROR, code);
     tb.release();
-    unifex::set_error(std::move(r), std::move(e));
+    std::exception_ptr* es = ::new (usim_alloc(sizeof(std::exception_ptr))) std::exception_ptr(std::move(e));
+    estore = es;
+    unifex::set_error(std::move(r), std::move(*es));
     tap_signal_exit(t);
   }
   void rv_done() noexcept override {
